@@ -13,11 +13,14 @@ fallback, finite inverse and Cholesky factor, fitted on resampled support points
 Binding A (no hooks, /repo untouched): the names np / optimize / special inside the tempest.student namespace are
 pointed at forwarding proxies for the duration of a fit (vlib/student_obs.py); each observed fit is shown to be
 bit-identical to the unobserved one.  Floats become tags: equal <=> equal after applying g up to
-    init:  64   * eps * K                      (worst observed 1.9)
-    iter:  2e4  * eps * K * max(1, nu_max)     (worst observed ~7e2)
+    mu0, Sigma0:   64 * eps * K                                   (worst observed 1.9 eps K)
+    delta, mu:     1e-8 + 3e4 * eps * K * max(1, nu_max)          (worst observed 3% of it)
+    nu, Sigma:     1e-9 + 3e3 * eps * K * max(1, nu_max)          (worst observed 2% of it)
+errors measured relative to sqrt(Sigma_jj) (mu), sqrt(Sigma_ii Sigma_jj) (Sigma), delta+1 (delta), nu*max(1,nu) (nu).
 K = (max_j max|x_j|/sd_j) * cond(correlation) of the worse-conditioned of X and g(X): the number of roundings of the
-data's REPRESENTATION that one unit of its standardised shape is worth; translations (drawn up to 1e6) are shrunk by
-factors of 10 until the pair's iteration tolerance is <= 1e-5 (or K(g(X)) <= 4 K(X) when X itself is worse).
+data's REPRESENTATION that one unit of its standardised shape is worth; the floors are the absolute termination tolerance
+of the root search (bisect xtol = 2e-12) as the iteration propagates it.  Translations (drawn up to 1e6) are shrunk by
+factors of 10 until the pair's delta/mu tolerance is <= 1e-5 (or K(g(X)) <= 4 K(X) when X itself is worse).
 d = 1 with dyadic scaling and no translation is compared bit for bit.  Discrete decisions that differ inside the
 pair's rounding band (or where the real value of the branch test is within 1% of zero) are near-ties: TLC reports
 TIE, the case is re-drawn with another map and counted inconclusive, never a violation.
@@ -314,7 +317,7 @@ def main():
                 kinds_seen[m["map"]["kind"]] = kinds_seen.get(m["map"]["kind"], 0) + 1
                 if m["d"] <= 3:
                     perms_seen.add((m["d"], tuple(m["map"]["p"])))
-                tols.append(dg["tol"]["iter"])
+                tols.append(dg["tol"]["shape"])
                 exact_pairs += dg["tol"]["exact"]
                 if any(x["br"] == "root" for x in it["a"]["its"]):
                     body_pairs += 1
@@ -340,14 +343,16 @@ def main():
                         if pid in tie_pids and q not in ("mu0", "S0"):
                             continue
                         worst[q] = max(worst[q], e)
-                        unit = so.EPS * dg["tol"]["K"] * (1.0 if q in ("mu0", "S0") else dg["tol"]["numax"])
-                        worst_norm[q] = max(worst_norm[q], e / unit)
+                        t_q = dg["tol"]["init"] if q in ("mu0", "S0") else dg["tol"]["shape" if q in ("delta", "mu") else "scat"]
+                        worst_norm[q] = max(worst_norm[q], e / t_q)
             rest = []
             for f in fl:
                 who, clause, i = f["who"], f["clause"], f["i"]
                 if m["what"] == "pair" and who in ("A", "B") and clause == "BranchAsExact":
                     x = it["a" if who == "A" else "b"]["its"][i - 1]
-                    if x["br"] == "inf" and x["ex"] == "root":
+                    if x["br"] == "inf" and x["ex"] == "root" and x["blind"]:
+                        # the pinned defect: the test point is beyond double resolution (Impl_OptNuFloat explains the branch);
+                        # an inf branch despite a root at a RESOLVABLE test point is a different failure and keeps its own key
                         known_hits.append((m, who, i))
                         continue
                 rest.append(f)
@@ -434,10 +439,11 @@ def main():
         "classes": classes, "dimensions": {str(k): v for k, v in sorted(dims.items())}, "map_kinds": kinds_seen,
         "permutations_d_le_3_covered": sorted([list(p) for p in perms_seen], key=repr),
         "near_tie_cases_redrawn": len(tie_cases), "inconclusive_near_ties": inconclusive,
-        "tolerance": {"init": "64*eps*K", "iter": "2e4*eps*K*max(1,nu_max)", "target": so.TOL_TARGET,
-                      "iter_tol_quantiles": {"p50": q(0.5), "p90": q(0.9), "p99": q(0.99), "max": tols[-1] if tols else None}},
+        "tolerance": {"init (mu0, Sigma0)": "64*eps*K", "delta, mu": "1e-8 + 3e4*eps*K*max(1,nu_max)", "nu, Sigma": "1e-9 + 3e3*eps*K*max(1,nu_max)",
+                      "K": "max over X, g(X) of (max_j max|x_j|/sd_j) * cond(correlation matrix)", "translation_budget_target": so.TOL_TARGET,
+                      "delta_mu_tol_quantiles": {"p50": q(0.5), "p90": q(0.9), "p99": q(0.99), "max": tols[-1] if tols else None}},
         "worst_observed_error": worst,
-        "worst_observed_error_in_units": {"unit": "eps*K (init), eps*K*max(1,nu_max) (iter)", **worst_norm},
+        "worst_observed_error_as_fraction_of_tolerance": worst_norm,
         "degenerate_outcomes_information_only": degen_outcomes,
         "binding_mutations_rejected": None if rejected is None else f"{rejected}/{total}",
         "not_claimed": "recovery of generating parameters from large t-samples (ensemble statistics)",
